@@ -57,9 +57,16 @@ func (cs *caseSpec) key() string {
 func genCases(c *run.Ctx) []caseSpec {
 	r := c.Rng("cases")
 	var out []caseSpec
+	perPos := map[string]int{}
 	add := func(pos *position, class, zone string, cluster bool) {
 		cs := caseSpec{Seed: c.Seed(), Idx: len(out), Pos: pos.Name, Win: genWindow(r, class), Zone: zone, WZone: zones[r.Intn(3)]}
-		cs.Var = variant{Cluster: cluster, Metrics15: r.Intn(4) != 0, TempoV2: r.Intn(3) != 0}
+		// the schema variants rotate per endpoint (every third case of an endpoint runs without the tempo_v2 marker,
+		// every fourth without metrics_15s), so that each is met whatever the seed
+		nth := perPos[pos.Name]
+		perPos[pos.Name]++
+		cs.Var = variant{Cluster: cluster, Metrics15: nth%4 != 1, TempoV2: nth%3 != 1}
+		r.Intn(4)
+		r.Intn(3)
 		if strings.HasPrefix(pos.Name, "tempo.search.traceql") {
 			cs.Var.Complex = r.Intn(2) == 0 // the portioned (complex request processor) path
 			if cs.Var.Complex && r.Intn(2) == 0 {
